@@ -45,6 +45,7 @@ def floors(tier):
     return {"evals": n["roundtrip"] * 6 + n["fit"], "distinct": max(2, n["roundtrip"] // 4),
             "counters": {"get_set_roundtrips": n["roundtrip"], "clones_checked": n["roundtrip"],
                          "config_field_sets_checked": n["roundtrip"] * 4,
+                         "config_multi_field_sets_checked": n["roundtrip"] * 3,
                          "unknown_names_refused": n["roundtrip"],
                          "fits_run": n["fit"], "fits_returned_and_checked": max(1, n["fit"] // 4)}}
 
@@ -133,6 +134,35 @@ def _roundtrip(R, rng, ctx):
         base.pop("config")
         if after != base:
             R.add([K.V("set_params:touches-other-params", f"set_params({field}=...) changed a non-config parameter", field=field, **w)])
+    # several config fields in one call: every one of them must change, nothing else
+    names = sorted(alt)
+    combos = [tuple(names)] + [tuple(rng.sample(names, 2)) for _ in range(3)]
+    for combo in combos:
+        c2 = clone(ad)
+        old_cfg = dataclasses.asdict(c2.get_params()["config"])
+        kw = {f: alt[f] for f in combo}
+        items = list(kw.items())
+        rng.shuffle(items)
+        try:
+            c2.set_params(**dict(items))
+        except Exception as e:  # noqa: BLE001
+            R.add([K.V(K.exc_key("set_params", e), f"set_params({sorted(kw)}) raised: {K.exc_text(e)}", fields=sorted(kw), **w)])
+            continue
+        new_cfg = dataclasses.asdict(c2.get_params()["config"])
+        R.evals += 1
+        R.stats.inc("config_multi_field_sets_checked")
+        wrong = [f for f in new_cfg if new_cfg[f] != (kw[f] if f in kw else old_cfg[f])]
+        if wrong:
+            R.add([K.V("set_params:config-multi-field", f"set_params({kw}) gave config {new_cfg} from {old_cfg}: field(s) {wrong} wrong",
+                       fields=sorted(kw), **w)])
+    # a config field together with a model-level parameter
+    c2 = clone(ad)
+    pn2 = {k: v * 2 for k, v in (c2.get_params()["process_noise"] or {}).items()}
+    c2.set_params(max_dt_sec=0.77, process_noise=pn2, innovation_filtering=1.25)
+    cfg2 = c2.get_params()["config"]
+    R.stats.inc("config_multi_field_sets_checked")
+    if cfg2.max_dt_sec != 0.77 or cfg2.innovation_filtering != 1.25 or c2.get_params()["process_noise"] != pn2:
+        R.add([K.V("set_params:config-multi-field", f"set_params(max_dt_sec, process_noise, innovation_filtering) gave {cfg2}", **w)])
     # unknown names
     for bad in ("not_a_parameter", "process_noises", "Config", "symbolic_model__x"):
         c3 = clone(ad)
